@@ -30,6 +30,7 @@ type Obligation struct {
 }
 
 type FnCtx struct {
+	escapedPtrs []escapedPtr
 	eng       *Engine
 	vc        *VC
 	fn        *ssa.Function
@@ -876,6 +877,11 @@ func (c *FnCtx) execInstr(fr *Frame, st *State, instr ssa.Instruction) {
 	case *ssa.MakeInterface:
 		v := c.val(fr, st, x.X)
 		t := x.X.Type()
+		if _, isPtr := t.Underlying().(*types.Pointer); isPtr {
+			// a pointer that travels on inside an interface value (e.g. in a ...any argument
+			// list): a dependency receiving interface values may write through it
+			c.escapedPtrs = append(c.escapedPtrs, escapedPtr{v, t})
+		}
 		fr.regs[x] = If{Tag: c.typeTag(t), ID: c.box(v, t), Static: v, StaticT: t}
 	case *ssa.TypeAssert:
 		fr.regs[x] = c.typeAssert(fr, st, x)
